@@ -32,7 +32,7 @@ def sequence_to_score(sequence, sort_by_time=False, **kwargs):
     from ..tonality import Tonality
     from ..note import Note, Silence, Continuation
     if sort_by_time:
-        sequence = sequence.sort_values(by='start', ascending=True)
+        sequence = sequence.sort_values(by='start', ascending=True, kind='stable')
     groups_chord = sequence.groupby('chord_idx')
     score = []
     for chord_idx, group_chord in groups_chord:
@@ -116,4 +116,4 @@ def score_to_sequence(score, **kwargs):
                'note_type', 'note_val', 'note_octave', 'note_amp',
                'note_duration', 'note_idx'
                ]
-    return sequence[COLUMNS].sort_values(by='start', ascending=True)
+    return sequence[COLUMNS].sort_values(by='start', ascending=True, kind='stable')
